@@ -58,6 +58,8 @@ def candidates(rng, n):
                          variant("Same", ser=["Mon2"]), variant("Other", "tuple", [field("String")], default=True)]))
     base.append(enum(0, [variant("Mon"), variant("Tue"), variant("Off1", dis=True), variant("Off2", dis=True), variant("Wed"), variant("Thu", dis=True)]))
     base.append(enum(0, [variant("Loose", ser=["Red"], aci=1), variant("Get", ser=["get"], aci=0), variant("Longest", ser=["Crimson"], aci=1), variant("Plain")]))
+    base.append(enum(0, [variant("One", ser=["1", "one"], aci=1), variant("Plus", ser=["+"], ts="plus", aci=1), variant("Empty", ser=["", "none"], aci=1), variant("Plain")]))
+    base.append(enum(0, [variant("Sq", ser=["[x]"], aci=1), variant("Cu", ser=["{ab}"], aci=1), variant("At", ser=["a@b_c"]), variant("Snake", ser=["snake_case-1"], aci=1)], aci=False))
     base.append(enum(0, []))
     # field-less enums may still have (const) generic parameters
     base.append(enum(0, [variant("A"), variant("B", ser=["b", "bee"]), variant("C", aci=1)], generics="const"))
